@@ -379,7 +379,8 @@ _ADDED7 = {
     "C06": " (LP1) no range loop of pkg/dsl with a conditional body leaves on every path of its first iteration.",
     "C09": " (RD1) see C04; (V5) one audit of round 0 — validateUnionCases not descending into the type arguments of a reference — was wrong and is removed (fix df90284).",
     "C10": " (TA1) no unchecked single-value type assertion in the parsers; (P4n) a type switch with an aborting default over a variable last assigned from a nil-returning module function "
-           "handles nil.",
+           "handles nil; (P4f) likewise for a nil-able definition field; (RC1) a cycle of calls that hand one *yaml.Node on unchanged carries contradictory Kind/Tag conditions "
+           "on that node (fix 3a2e09a: a scalar tagged `!!seq` recursed until the stack overflowed).",
     "C11": " (V6) registered here too.",
     "C12": " (PC1) registered here too (ordering of diagnostics compares values, not addresses).",
     "C13": " (Q8) UnmarshalExpression parses the four plain scalar tags alike.",
